@@ -16,7 +16,7 @@ import (
 )
 
 // S-req (C07): arbitrary request bodies / headers into real handlers.
-//   hreq proto=P kind=unary|client|bidi max=N sent=HEX tmo=HEX flat=HEX tail=T seg=CUTS
+//   hreq proto=P kind=unary|server|client|bidi max=N sent=HEX tmo=HEX flat=HEX tail=T seg=CUTS
 //     -> pre=reject:CODE | pre=run recv=HEX,.. end=eof|CODE
 
 func init() { register("req", "C07", streamReq) }
@@ -96,6 +96,12 @@ func hreqOp(c *Ctx, op string) {
 				got = append(got, append([]byte{}, (*r.Msg)...))
 				return connect.NewResponse(&[]byte{1}), nil
 			}, opts...)
+		case "server":
+			h = connect.NewServerStreamHandler("/s/m", func(ctx context.Context, r *connect.Request[[]byte], s *connect.ServerStream[[]byte]) error {
+				runs++
+				got = append(got, append([]byte{}, (*r.Msg)...))
+				return nil
+			}, opts...)
 		case "client":
 			h = connect.NewClientStreamHandler("/s/m", func(ctx context.Context, s *connect.ClientStream[[]byte]) (*connect.Response[[]byte], error) {
 				runs++
@@ -169,13 +175,14 @@ func hreqOp(c *Ctx, op string) {
 			if code == 0 {
 				c.Fail("req-norun-success", op, "0", "user code did not run, yet the response reports success")
 			}
-			if kind == "unary" {
-				// either rejected before the connection was set up, or the single Receive failed
+			if kind == "unary" || kind == "server" {
+				// either rejected before the connection was set up, or receiving the single
+				// message (and the end of the request side after it) failed
 				return fmt.Sprintf("norun:%d", code)
 			}
 			return fmt.Sprintf("pre=reject:%d", code)
 		}
-		if kind == "unary" {
+		if kind == "unary" || kind == "server" {
 			return fmt.Sprintf("pre=run recv=%s end=eof", hx(got[0]))
 		}
 		// C04 on the request side: once the handler's Receive has reported a failure, asking
@@ -321,7 +328,7 @@ func reqOracle(c *Ctx, op string, a map[string]string, flat []byte, got [][]byte
 		if bad == "" && len(decoded) > 0 && decoded[0] == 0xEE {
 			bad = "undecodable"
 		}
-		if bad == "special" && kind != "unary" && runs > 0 {
+		if bad == "special" && kind != "unary" && kind != "server" && runs > 0 {
 			special := int(flags) &^ 1
 			defined := (proto == "connect" && special&2 != 0) || (proto == "grpcweb" && special&0x80 != 0)
 			if !defined && flags&1 == 0 && !strings.HasSuffix(ans, "end=13") {
@@ -332,7 +339,7 @@ func reqOracle(c *Ctx, op string, a map[string]string, flat []byte, got [][]byte
 			if len(got) > i {
 				c.Fail("req-bad-message-delivered", op, ans, "user code received a message that is "+bad)
 			}
-			if kind != "unary" && bad != "special" && !strings.HasSuffix(ans, "end=3") && runs > 0 {
+			if kind != "unary" && kind != "server" && bad != "special" && !strings.HasSuffix(ans, "end=3") && runs > 0 {
 				c.Fail("req-wrong-code", op, ans, "a "+bad+" message must fail the call with invalid_argument")
 			}
 			return
@@ -342,14 +349,14 @@ func reqOracle(c *Ctx, op string, a map[string]string, flat []byte, got [][]byte
 			return
 		}
 		i++
-		if kind == "unary" {
+		if kind == "unary" || kind == "server" {
 			return
 		}
 	}
 	if len(got) > i {
 		c.Fail("req-phantom-message", op, ans, "user code received more messages than complete frames were sent")
 	}
-	if len(rest) > 0 && kind != "unary" && runs > 0 && strings.HasSuffix(ans, "end=eof") {
+	if len(rest) > 0 && kind != "unary" && kind != "server" && runs > 0 && strings.HasSuffix(ans, "end=eof") {
 		c.Fail("req-clean-end-mid-message", op, ans, "the request stopped inside a frame, yet user code saw a clean end of stream")
 	}
 }
@@ -481,7 +488,7 @@ func streamReq(c *Ctx) {
 	sealedProbe(c)
 	r := c.Rng
 	protos := []string{"connect", "grpc", "grpcweb"}
-	kinds := []string{"client", "bidi", "unary"}
+	kinds := []string{"client", "bidi", "unary", "server"}
 	n := 60
 	if c.Thorough() {
 		n = 2500
@@ -550,6 +557,15 @@ func streamReq(c *Ctx) {
 					flat = p
 				} else {
 					flat, _, _ = genBody(r, comp, 4, 70)
+					if (kind == "unary" || kind == "server") && r.Chance(60) {
+						// the well-formed shape of these requests: exactly one message
+						p := genPayload(r, 70)
+						if comp && r.Chance(50) {
+							flat = frame(1, rleCompress(p))
+						} else {
+							flat = frame(0, p)
+						}
+					}
 					if !comp && r.Chance(15) { // compressed flag although no encoding was negotiated
 						flat = append(flat, frame(1, rleCompress([]byte{4, 4, 4}))...)
 					}
